@@ -147,3 +147,33 @@ w_chars(N, R) :-
     maplist(w_num_chars, L, Css), append(Css, All), length(All, Len),
     atom_chars(A, All), atom_length(A, AL), number_chars(Num, "12345"), R = Len-AL-Num.
 w_num_chars(I, Cs) :- number_chars(I, Cs).
+
+% ---------------------------------------------------------------------------
+% C40 helpers
+% ---------------------------------------------------------------------------
+:- dynamic(c40_fact/1).
+c40_fact(a). c40_fact(b). c40_fact(c).
+
+c40_rule(X) :- c40_fact(X), X \== b.
+c40_rule(z).
+
+c40_cutty(X) :- member(X, [1,2,3]), X >= 2, !.
+c40_cutty(9).
+
+c40_throw_at(N) :- vh_count(0, N), throw(c40_ball(N)).
+
+c40_split([], [], []).
+c40_split([R-W|Ps], [r(R)|Rs], Ws) :-
+    (  R == inference_limit_exceeded -> Ws = Ws1 ; Ws = [w(W)|Ws1] ),
+    c40_split(Ps, Rs, Ws1).
+
+c40_run(G, W, L, Rs, Ws) :-
+    findall(R-W, call_with_inference_limit(G, L, R), Ps),
+    c40_split(Ps, Rs, Ws).
+
+% least limit (up to Max) at which G completes without inference_limit_exceeded
+c40_threshold(G, Max, T) :-
+    between(0, Max, T),
+    findall(R, call_with_inference_limit(G, T, R), Rs),
+    \+ member(inference_limit_exceeded, Rs),
+    !.
